@@ -35,6 +35,12 @@
 (***************************************************************************)
 EXTENDS Integers, Sequences, FiniteSets, TLC
 
+\* Reading of std.objectRemoveKey that the property leaves open:
+\*   1 = the field is deleted from every layer (late binding of the rest is kept)
+\*   2 = a snapshot: every remaining field is bound to the original object's field
+\* A program whose outcome differs between the two readings is outside the domain.
+CONSTANT RmMode
+
 Ok(v) == <<"ok", v>>
 Err(k, m) == <<"err", k, m>>
 ErrAny == <<"err", "any", <<>>>>
@@ -186,6 +192,9 @@ RECURSIVE BinOp(_, _, _, _)
 RECURSIVE StdCall(_, _, _, _, _)
 RECURSIVE FoldL(_, _, _, _)
 RECURSIVE ForceAll(_, _)
+RECURSIVE FromJson(_)
+RECURSIVE PruneJ(_)
+RECURSIVE MergePatchJ(_, _)
 
 Force(t, fuel) ==
   IF t[1] = "val" THEN Ok(t[2])
@@ -461,6 +470,60 @@ AppTh(f, args) ==
   IN Th(<<"call", <<"var", "f">>, [i \in 1..Len(args) |-> <<"var", names[i]>>], <<>>, FALSE>>,
         << <<"vals", <<"f">> \o names, <<ValTh(f)>> \o args>> >>, NoSc)
 
+
+\* A manifested JSON value (Values.tla encoding) as a run-time value (plain data).
+FromJson(j) ==
+  CASE j.t = "null" -> NullV
+    [] j.t = "bool" -> BoolV(j.b)
+    [] j.t = "num" -> NumV(j.s * j.m)
+    [] j.t = "str" -> StrV(j.c)
+    [] j.t = "arr" -> ArrV([i \in 1..Len(j.a) |-> ValTh(FromJson(j.a[i]))])
+    [] j.t = "obj" ->
+         ObjV(<< <<"layer", [i \in 1..Len(j.f) |-> <<j.f[i].k, "d", FALSE, <<"var", "v">>,
+                                                   <<"vals", <<"v">>, <<ValTh(FromJson(j.f[i].v))>> >> >>],
+                   <<>>, <<>>, <<>>, TRUE>> >>, TRUE)
+
+JEmpty(j) == (j.t = "null") \/ (j.t = "arr" /\ j.a = <<>>) \/ (j.t = "obj" /\ j.f = <<>>)
+
+\* std.prune on JSON data: drop null / empty array / empty object members, recursively
+PruneJ(j) ==
+  CASE j.t = "arr" ->
+         LET ps == [i \in 1..Len(j.a) |-> PruneJ(j.a[i])] IN
+         [t |-> "arr", a |-> SelectSeq(ps, LAMBDA x : ~JEmpty(x))]
+    [] j.t = "obj" ->
+         LET ps == [i \in 1..Len(j.f) |-> [k |-> j.f[i].k, h |-> FALSE, v |-> PruneJ(j.f[i].v)]] IN
+         [t |-> "obj", f |-> SelectSeq(ps, LAMBDA x : ~JEmpty(x.v))]
+    [] OTHER -> j
+
+JKeys(j) == {j.f[i].k : i \in 1..Len(j.f)}
+JGet(j, k) == j.f[CHOOSE i \in 1..Len(j.f) : j.f[i].k = k].v
+
+\* std.mergePatch (RFC 7396) on JSON data
+MergePatchJ(target, patch) ==
+  IF patch.t # "obj" THEN patch
+  ELSE LET tgt == IF target.t = "obj" THEN target ELSE [t |-> "obj", f |-> <<>>]
+           nulls == {k \in JKeys(patch) : JGet(patch, k).t = "null"}
+           keys == SortCps((JKeys(tgt) \cup JKeys(patch)) \ nulls) IN
+       [t |-> "obj", f |-> [i \in 1..Len(keys) |->
+          [k |-> keys[i], h |-> FALSE,
+           v |-> IF keys[i] \notin JKeys(patch) THEN JGet(tgt, keys[i])
+                 ELSE IF keys[i] \notin JKeys(tgt) THEN MergePatchJ([t |-> "null"], JGet(patch, keys[i]))
+                 ELSE MergePatchJ(JGet(tgt, keys[i]), JGet(patch, keys[i]))]]]
+
+RemoveKey(o, k) ==
+  LET layers == o[2] IN
+  IF RmMode = 1 THEN
+     ObjV([j \in 1..Len(layers) |->
+             <<"layer", SelectSeq(LFields(layers[j]), LAMBDA f : f[1] # k), LLocals(layers[j]),
+               LAsserts(layers[j]), LEnv(layers[j]), LTop(layers[j])>>], FALSE)
+  ELSE
+     LET names == SortCps(AllNames(layers) \ {k}) IN
+     ObjV(<< <<"layer", [i \in 1..Len(names) |->
+                          <<names[i], VisOf(layers, names[i]), FALSE,
+                            <<"index", <<"var", "o">>, <<"str", names[i]>> >>,
+                            <<"vals", <<"o">>, <<ValTh(o)>> >> >>],
+               <<>>, <<>>, <<>>, TRUE>> >>, FALSE)
+
 StdCall(name, args, env, sc, fuel) ==
   IF fuel = 0 THEN Bottom ELSE
   LET A(i) == Eval(args[i], env, sc, fuel - 1)
@@ -516,7 +579,24 @@ StdCall(name, args, env, sc, fuel) ==
            IF o[1] # "obj" \/ f[1] # "str" THEN RtErr
            ELSE IF f[2] \in AllNames(o[2]) THEN ObjIndex(o, f[2], fuel - 1)
            ELSE IF Len(args) = 3 THEN A(3) ELSE Ok(NullV))
-    [] name = "objectRemoveKey" /\ Len(args) = 2 -> Outside   \* specified separately (Inherit.tla)
+    [] name = "objectRemoveKey" /\ Len(args) = 2 ->
+         Both(A(1), A(2), LAMBDA o, k :
+           IF o[1] # "obj" \/ k[1] # "str" THEN RtErr ELSE Ok(RemoveKey(o, k[2])))
+    [] name = "mapWithKey" /\ Len(args) = 2 ->
+         Both(A(1), A(2), LAMBDA f, o :
+           IF f[1] # "func" \/ o[1] # "obj" THEN RtErr
+           ELSE Eval(<<"objcomp", <<"var", "k">>,
+                       <<"call", <<"var", "f">>, << <<"var", "k">>, <<"index", <<"var", "o">>, <<"var", "k">> >> >>, <<>>, FALSE>>,
+                       <<>>, << <<"for", "k", <<"std", "objectFields", << <<"var", "o">> >> >> >> >> >>,
+                     << <<"vals", <<"f", "o">>, <<ValTh(f), ValTh(o)>> >> >>, NoSc, fuel - 1))
+    [] name = "prune" /\ Len(args) = 1 ->
+         \* decided for error-free data only
+         LET m == Bind(A(1), LAMBDA v : Manifest(v, fuel - 1)) IN
+         IF m[1] = "ok" THEN Ok(FromJson(PruneJ(m[2]))) ELSE Outside
+    [] name = "mergePatch" /\ Len(args) = 2 ->
+         LET m1 == Bind(A(1), LAMBDA v : Manifest(v, fuel - 1))
+             m2 == Bind(A(2), LAMBDA v : Manifest(v, fuel - 1)) IN
+         IF m1[1] = "ok" /\ m2[1] = "ok" THEN Ok(FromJson(MergePatchJ(m1[2], m2[2]))) ELSE Outside
     [] OTHER -> Outside
 
 -----------------------------------------------------------------------------
